@@ -20,7 +20,12 @@
 //   roundtrip-equal              parse(dump(v)) == v   for each option set
 //   dump-valid-rfc8259           the reference accepts dump(v)
 //   dump-equals-reference        ... and decodes it to v
-//   no-crash-no-ub / terminates  (supervisor, rt/bexh.hpp) ASan+UBSan abort, signal, exception, stall
+//   no-crash-no-ub               a read past the end of the input (PROT_NONE guard page behind the input copy,
+//                                sig input-overread:min=<minimal input>), an escaping exception, or - via the
+//                                supervisor in rt/bexh.hpp - an ASan/UBSan abort or fatal signal (sig crash)
+//   terminates                   (supervisor) no progress inside one case for 30 s
+// Sigs are derived from the failing case: the first scalar token / string atom / value leaf that shows the
+// same kind of failure on its own, the limit that alone reproduces it, or the minimised input.
 // Over-acceptance of invalid text is never a violation.
 #include "iora/parsers/json.hpp"
 
